@@ -43,6 +43,9 @@ TtyInOk(e) ==
   /\ \A i \in 1 .. Len(e.typed) : e.got[i] \in (IF e.typed[i] < 128 THEN {e.typed[i]} ELSE {e.typed[i], 65533})
 (* an object file delivered through a named pipe loads and runs exactly like the same bytes in a regular file *)
 FifoLoadOk(e) == e.file = e.fifo
+(* C05 at the command line: whatever the size of the input, `lace check` ends with a verdict (0 or 1), never by a signal or a panic *)
+CliTotalOk(e) == e.code \in {0, 1}
+
 (* ---- C06: compile output, loader ---- *)
 CompileOk(e) ==
   IF Accepts(e.ast, e.stack)
@@ -54,6 +57,8 @@ LoadOk(e) ==
   IN  /\ e.code # 101 /\ e.code >= 0                       \* never a crash
       /\ (fits <=> ~e.refused)
       /\ (~fits => e.code # 0)
+(* an image that jumps to the word right behind itself stops on the implicit HALT the loader put there *)
+LoadRunOk(e) == e.code = 0 /\ e.halted
 (* running the object file behaves like running the source *)
 (* ... and (ESC characters aside, D9) prints the same with and without --minimal *)
 PairOk(e) == e.asm = e.obj /\ e.full = e.asm
@@ -69,6 +74,9 @@ AgreeOk(e) ==
      THEN (e.check = e.compile /\ e.compile = e.run)
      ELSE (e.check = ok /\ e.compile = ok /\ e.run = ok)
 
+(* a source that is not valid UTF-8 is no source: all three refuse it, none crashes *)
+AgreeRawOk(e) == ~e.panic /\ ~e.check /\ ~e.compile /\ ~e.run
+
 (* ---- C08: compile is all-or-nothing ---- *)
 (* dest: "absent" | "file" | "longer" (this object + stale tail) | "devfull" | "nodir";  before/after: file bytes (or <<-1>> if absent) *)
 (*       "nonutf8" / "longutf8" (absent; a name that is not UTF-8 / long with multi-byte characters)                                *)
@@ -77,8 +85,12 @@ AgreeOk(e) ==
 (* failure may not be a panic: only that the outcome is one of the two.                                                            *)
 (*       "absent-fsize" / "file-fsize" (absent / existing regular file, and the process cannot write a byte to any regular file)    *)
 (*       "absent-msgfail" / "file-msgfail" (stdout stops accepting data after the first message)                                  *)
-RegularDest == {"absent", "file", "longer", "nonutf8", "longutf8", "absent-outfull", "file-outfull", "absent-msgfail", "file-msgfail"}
-Unwritable  == {"devfull", "nodir", "absent-fsize", "file-fsize"}
+(*       "symlink" / "symlink-fsize" (a symbolic link to an existing regular file, read through the link; <<.., -3>> appended to     *)
+(*       `after` if the link was replaced by something else), "mixedutf8" (name mixing 1- to 4-byte characters),                     *)
+(*       "absent-pipegone" (stdout is a pipe whose reader left after the first message)                                              *)
+RegularDest == {"absent", "file", "longer", "nonutf8", "longutf8", "absent-outfull", "file-outfull", "absent-msgfail", "file-msgfail",
+                "symlink", "mixedutf8", "absent-pipegone"}
+Unwritable  == {"devfull", "nodir", "absent-fsize", "file-fsize", "symlink-fsize"}
 AtomicOk(e) ==
   LET ok == Accepts(e.ast, e.stack) IN
   /\ (e.code = 0 => /\ ok /\ e.dest \in RegularDest /\ e.after = ObjectBytes(e.ast))
@@ -135,6 +147,7 @@ WatchOk(e) == e.seen \in {"none", IF e.valid THEN "success" ELSE "error"}
 Explains(e) ==
   CASE e.ev = "transport" -> TransportOk(e)
     [] e.ev = "xport"     -> XportOk(e)
+    [] e.ev = "clitotal"  -> CliTotalOk(e)
     [] e.ev = "ttyin"     -> TtyInOk(e)
     [] e.ev = "fifoload"  -> FifoLoadOk(e)
     [] e.ev = "featrun"   -> FeatRunOk(e)
@@ -142,9 +155,11 @@ Explains(e) ==
     [] e.ev = "dispatch"  -> DispatchOk(e)
     [] e.ev = "compile"   -> CompileOk(e)
     [] e.ev = "loadfile"  -> LoadOk(e)
+    [] e.ev = "loadrun"   -> LoadRunOk(e)
     [] e.ev = "runpair"   -> PairOk(e)
     [] e.ev = "dbgpair"   -> DbgPairOk(e)
     [] e.ev = "agree"     -> AgreeOk(e)
+    [] e.ev = "agree_raw" -> AgreeRawOk(e)
     [] e.ev = "atomic"    -> AtomicOk(e)
     [] e.ev = "compile_sys" -> SysOk(e)
     [] e.ev = "gate"      -> GateOk(e)
